@@ -801,6 +801,12 @@ func (tt *TermTable) FUnaryMath(cfg FloatCfg, name string, a *Term) (*Term, erro
 			fl := tt.mk("to_real", SReal, 0, tt.mk("to_int", SInt, 0, a))
 			ce := tt.mk("-", SReal, 0, tt.mk("to_real", SReal, 0, tt.mk("to_int", SInt, 0, tt.mk("-", SReal, 0, a))))
 			return tt.Ite(tt.mk("<", SBool, 0, a, tt.Float(0, SReal)), ce, fl), nil
+		case "Round":
+			// half away from zero: sign(a) * floor(|a| + 1/2)
+			half := tt.Float(0.5, SReal)
+			pos := tt.mk("to_real", SReal, 0, tt.mk("to_int", SInt, 0, tt.mk("+", SReal, 0, a, half)))
+			neg := tt.mk("-", SReal, 0, tt.mk("to_real", SReal, 0, tt.mk("to_int", SInt, 0, tt.mk("+", SReal, 0, tt.mk("-", SReal, 0, a), half))))
+			return tt.Ite(tt.mk("<", SBool, 0, a, tt.Float(0, SReal)), neg, pos), nil
 		}
 		return nil, fmt.Errorf("Q domain: math.%s needs an axiomatised stub", name)
 	}
